@@ -811,7 +811,7 @@ func TestVerif_C23(t *testing.T) {
 	r.SetRule("seeded episodes on real BadgerStores, each over fresh payloads (1-6 payloads, 1-3 differently signed bodies per payload): random queue / store / retrieve (limits 0, 1-2, up to all, far above) / " +
 		"remove (also never-written and repeated hashes) / get calls, closed by retrieve-all, get, remove-all, get, retrieve. Sequential episodes are stepped call by call through a specification that holds exactly the clauses of " +
 		"the statement (queue calls not yet returned as upper bound, queued-and-not-returned-or-removed as lower bound when the retrieval had room, body presence/version); concurrent episodes (2-8 clients released by a barrier, " +
-		"call/return ticks from one atomic counter, 4 independent stores in parallel) are checked for linearizability against the same specification with porcupine in a -race build. evaluations = episodes; " +
+		"call/return ticks from one atomic counter, 6 independent stores in parallel) are checked for linearizability against the same specification with porcupine in a -race build. evaluations = episodes; " +
 		"non-trivial = distinct histories (by content; concurrent ones also by tick order) in which a retrieval returned something and, for concurrent ones, calls of different clients overlapped")
 	r.Assume("badger.ErrConflict results (after the store's own retries) leave no effect; such calls are kept in the history as no-ops")
 	r.Assume("cache TTL is 24 h, so Badger expiry cannot remove records during a run")
@@ -819,50 +819,65 @@ func TestVerif_C23(t *testing.T) {
 	r.Assume("porcupine v1.3.0 decides linearizability of the recorded call/return intervals; the Go race detector reports are scanned by the runner for frames in storage/badger_cache.go")
 	r.SetFloor(50)
 
-	rng := r.Rand()
 	base := t.TempDir()
 
-	// ---- sequential part
-	st, err := vC23Open(base + "/seq")
-	if err != nil {
-		t.Fatalf("open store: %v", err)
-	}
-	t0 := time.Now()
-	seqEpisodes := r.N(1500, 40000)
-	for i := 0; i < seqEpisodes && r.Violations() < 8; i++ {
-		if vC23Sequential(r, st, rng, fmt.Sprintf("s%d:%d", r.Seed, i)) {
-			break
+	// Both parts run on several independent stores in parallel ("lanes"); every
+	// lane is a pure function of the seed. A lane moves to a fresh store every
+	// 50 episodes: consumed tickets stay behind as Badger tombstones that every
+	// later retrieval has to skip, which only costs time.
+	var stats vC23ConcStats
+	var stop atomic.Bool
+	runLanes := func(kind string, lanes, episodes int, episode func(lane *vC23Lane, lrng *rand.Rand, label string) bool) {
+		var wg sync.WaitGroup
+		for l := 0; l < lanes; l++ {
+			lane := &vC23Lane{idx: l}
+			lrng := r.Fork("c23-"+kind, l)
+			wg.Add(1)
+			go func(l int) {
+				defer wg.Done()
+				defer func() {
+					if lane.store != nil {
+						_ = lane.store.Close()
+					}
+				}()
+				done := 0
+				for i := l; i < episodes && !stop.Load() && r.Violations() < 8; i += lanes {
+					if done%50 == 0 {
+						if lane.store != nil {
+							_ = lane.store.Close()
+						}
+						lane.dir = fmt.Sprintf("%s/%s-%d-%d", base, kind, l, done/50)
+						ls, err := vC23Open(lane.dir)
+						if err != nil {
+							r.Inconclusive(fmt.Sprintf("open store: %v", err))
+							stop.Store(true)
+							return
+						}
+						lane.store = ls
+						r.Count("stores_opened", 1)
+					}
+					done++
+					if episode(lane, lrng, fmt.Sprintf("%s%d:%d", kind, r.Seed, i)) {
+						stop.Store(true)
+					}
+				}
+			}(l)
 		}
+		wg.Wait()
 	}
-	_ = st.Close()
+
+	// ---- sequential part
+	t0 := time.Now()
+	runLanes("s", 6, r.N(1000, 8000), func(lane *vC23Lane, lrng *rand.Rand, label string) bool {
+		return vC23Sequential(r, lane.store, lrng, label)
+	})
 	r.Note("sequential_part_wall_s", time.Since(t0).Seconds())
-	t0 = time.Now()
 
 	// ---- concurrent part
-	lanes := 4
-	concEpisodes := r.N(1200, 30000)
-	var stats vC23ConcStats
-	var wg sync.WaitGroup
-	var stop atomic.Bool
-	for l := 0; l < lanes; l++ {
-		ls, err := vC23Open(fmt.Sprintf("%s/lane%d", base, l))
-		if err != nil {
-			t.Fatalf("open store: %v", err)
-		}
-		lane := &vC23Lane{idx: l, dir: base, store: ls}
-		lrng := r.Fork("c23-lane", l)
-		wg.Add(1)
-		go func(l int) {
-			defer wg.Done()
-			defer lane.store.Close()
-			for i := l; i < concEpisodes && !stop.Load() && r.Violations() < 8; i += lanes {
-				if vC23Concurrent(r, lane, lrng, fmt.Sprintf("c%d:%d", r.Seed, i), &stats) {
-					stop.Store(true)
-				}
-			}
-		}(l)
-	}
-	wg.Wait()
+	t0 = time.Now()
+	runLanes("c", 6, r.N(1000, 10000), func(lane *vC23Lane, lrng *rand.Rand, label string) bool {
+		return vC23Concurrent(r, lane, lrng, label, &stats)
+	})
 	r.Note("concurrent_part_wall_s", time.Since(t0).Seconds())
 
 	r.Count("conc_histories_linearizable", int(stats.ok))
